@@ -436,6 +436,44 @@ func (e *c39Env) newPC(ini c39Initial, stage string) *PeerConnection {
 			vkit.Fatalf(e.t, "Close: %v", err)
 		}
 	}
+	must := func(what string, err error) {
+		if err != nil {
+			vkit.Fatalf(e.t, "stage %s: %s: %v", stage, what, err)
+		}
+	}
+	switch stage {
+	case "remote-pranswer", "stable":
+		// the offerer of a first negotiation: have-local-offer, then the peer's (pr)answer
+		_, err := pc.CreateDataChannel("c39", nil)
+		must("CreateDataChannel", err)
+		offer, err := pc.CreateOffer(nil)
+		must("CreateOffer", err)
+		must("SetLocalDescription", pc.SetLocalDescription(offer))
+		peer := vNewPC(e.t, e.api, nil)
+		must("peer SetRemoteDescription", peer.SetRemoteDescription(offer))
+		ans, err := peer.CreateAnswer(nil)
+		must("peer CreateAnswer", err)
+		_ = peer.Close()
+		if stage == "remote-pranswer" {
+			ans.Type = SDPTypePranswer
+		}
+		must("SetRemoteDescription", pc.SetRemoteDescription(ans))
+	case "local-pranswer", "remote-offer":
+		// the answerer of a first negotiation: have-remote-offer (no local description yet), then its own pranswer
+		peer := vNewPC(e.t, e.api, nil)
+		_, err := peer.CreateDataChannel("c39", nil)
+		must("peer CreateDataChannel", err)
+		offer, err := peer.CreateOffer(nil)
+		must("peer CreateOffer", err)
+		_ = peer.Close()
+		must("SetRemoteDescription", pc.SetRemoteDescription(offer))
+		if stage == "local-pranswer" {
+			ans, err := pc.CreateAnswer(nil)
+			must("CreateAnswer", err)
+			ans.Type = SDPTypePranswer
+			must("SetLocalDescription(pranswer)", pc.SetLocalDescription(ans))
+		}
+	}
 
 	return pc
 }
@@ -514,7 +552,7 @@ func c39Extras() []c39ExtraArg {
 func TestVerifC39(t *testing.T) { //nolint:cyclop
 	c := vkit.New("C39", "model_checking")
 	defer c.Finish(t)
-	c.Rule("states = (stage in {fresh, after SetLocalDescription, closed}, GetConfiguration snapshot); transitions = SetConfiguration calls: from each of 4 initial configurations x 3 stages all 3^7 arguments (each of 7 fields in {zero, same as current, changed / invalid server list}), classes recomputed against the current snapshot before every call (mode walk: one PeerConnection per (initial, stage); mode fresh (thorough): a new PeerConnection per call), plus single-field sweeps over further shapes of change; distinct = (stage, set of must-reject reasons, error kind) rejected without change, and accepted calls by set of changed mutable fields")
+	c.Rule("states = (stage in {fresh, after SetLocalDescription(offer), closed, have-remote-offer, have-local-pranswer, have-remote-pranswer, stable after a complete exchange}, GetConfiguration snapshot); transitions = SetConfiguration calls: from each of 4 initial configurations x 7 stages all 3^7 arguments (each of 7 fields in {zero, same as current, changed / invalid server list}), classes recomputed against the current snapshot before every call (mode walk: one PeerConnection per (initial, stage); mode fresh (thorough): a new PeerConnection per call), plus single-field sweeps over further shapes of change; distinct = (stage, set of must-reject reasons, error kind) rejected without change, and accepted calls by set of changed mutable fields")
 	c.Assume("a zero argument field on a non-zero setting is 'unspecified' in pion: the statement is read as silent on whether such a call is accepted, but the immutable setting must keep its value either way")
 	c.Assume("the statement does not demand that a call changing nothing is accepted; certificates are compared with Certificate.Equals, ICE servers structurally")
 
@@ -534,7 +572,7 @@ func TestVerifC39(t *testing.T) { //nolint:cyclop
 		*dst = *crt
 	}
 
-	stages := []string{"fresh", "sld", "closed"}
+	stages := []string{"fresh", "sld", "closed", "remote-offer", "local-pranswer", "remote-pranswer", "stable"}
 	dims := []int{3, 3, 3, 3, 3, 3, 3}
 	total := vkit.ProductSize(dims...)
 	c.Set("argument_combinations", total)
